@@ -92,6 +92,20 @@ def cases(ctx):
                            f"*={base + b:#08x}\n.db " + ", ".join(str(0xA0 + i) for i in range(nb)) + "\n")
                     out.append({"kind": f"overlap:{fmt}:{mapping}:{a}:{b}", "rom": mapping, "mapping": mapping, "format": fmt,
                                 "copier": copier, "defines": {}, "src": src, "api": True, "cli": a == 4, "spec": {"t": "c12"}})
+    # a block whose image offset happens to equal the number of bytes written so far, after a non-sequential block
+    for mapping, first, second in (("low", 0x018000, 0x008004), ("high", 0x410000, 0x400003), ("low", 0x008010, 0x008002)):
+        for fmt in ("sfc", "ips"):
+            n1 = second & 0xFF
+            src = (f"*={first:#08x}\n.db " + ", ".join(str(0x10 + i) for i in range(n1)) + f"\n*={second:#08x}\n.db 0x99, 0x98\n"
+                   f"*={first + 0x40:#08x}\n.db 0x77\n")
+            out.append({"kind": f"offset-equals-count:{fmt}:{mapping}", "rom": mapping, "mapping": mapping, "format": fmt,
+                        "copier": False, "defines": {}, "src": src, "api": True, "cli": fmt == "sfc", "spec": {"t": "c12"}})
+    # code before the first *=: every front end starts at the same logical address (0) under every mapping
+    for mapping in (None, "low", "low2", "high"):
+        for fmt in ("ips", "sfc"):
+            out.append({"kind": f"no-origin:{fmt}:{mapping}", "rom": mapping if mapping else None, "mapping": mapping, "format": fmt,
+                        "copier": False, "defines": {}, "api": True, "cli": mapping is not None, "symfile": True,
+                        "src": "start:\n.dw start\n.dl start\nlda.l start\nsecond:\n.dl second\n", "spec": {"t": "c12"}})
     # one contiguous block longer than an IPS record can hold (split into records), with and without the copier header
     blob = [(i * 7 + 3) & 0xFF for i in range(0x10005 if tier == "quick" else 0x20003)]
     for copier in (False, True):
